@@ -1019,7 +1019,11 @@ mod generator {
             let pattern = PATTERNS[i % PATTERNS.len()];
             let in_region = (i / PATTERNS.len() + i) % 10 < 3;
             let profile = if in_region { risky[(i / 3) % risky.len()] } else { clean[(i / 2) % clean.len()] };
-            let ps = if rng.chance(1, 6) { 8192 } else { 4096 };
+            let ps = match rng.below(12) {
+                0 | 1 => 8192,
+                2 => 16384,
+                _ => 4096,
+            };
             let kt = if in_region && rng.chance(1, 8) { "ltext" } else { *rng.pick(&kts) };
             // scans after every operation make a sequence quadratic in the bytes stored: keep huge payloads short
             let cap = match profile {
@@ -1091,6 +1095,16 @@ mod generator {
             } else {
                 out.push(Case::new(format!("dist 4096 {}", sizes.join(",")), &["dist", "nt", ["dist-tiny", "dist-small", "dist-large", "dist-mixed"][class]]));
             }
+        }
+        // outside the domain the tree can produce (a cell larger than usable/3): here the fix-up of the helper underflows
+        // and panics; the model must predict exactly when
+        for _ in 0..(nh / 15) {
+            let n = 2 + rng.below(6) as usize;
+            let big = rng.below(n as u64) as usize;
+            let sizes: Vec<String> = (0..n)
+                .map(|i| if i == big { 2000 + rng.below(900) } else { *rng.pick(&[8u64, 200, 600, 1200]) + rng.below(64) }.to_string())
+                .collect();
+            out.push(Case::new(format!("dist 4096 {}", sizes.join(",")), &["dist", "nt", "dist-oversize"]));
         }
         out
     }
